@@ -22,7 +22,7 @@ where
 {
     match serde_json::from_value::<Q::ResponseData>(v) {
         Ok(d) => match serde_json::to_value(&d) {
-            Ok(j) => json!({"ok": j}),
+            Ok(j) => json!({"ok": j, "dbg": format!("{:?}", d)}),
             Err(e) => json!({"ser_err": e.to_string()}),
         },
         Err(e) => json!({"err": e.to_string()}),
